@@ -15,8 +15,12 @@ import (
 )
 
 const (
-	peersPath    = "spynode/peers"
-	peersVersion = 2
+	peersPath = "spynode/peers"
+
+	// maxPeerAddressSize is the longest address accepted when reading stored peers (host name plus
+	// port).
+	maxPeerAddressSize = 300
+	peersVersion       = 2
 )
 
 // Peer address database. Used to find Tx Peers.
@@ -77,6 +81,9 @@ func (repo *PeerRepository) Load(ctx context.Context) error {
 	}
 
 	// Reset
+	if count < 0 || int(count) > buffer.Len() {
+		count = 0 // not backed by the data
+	}
 	repo.list = make([]*Peer, 0, count)
 
 	// Parse peers
@@ -238,9 +245,11 @@ func readPeer(input io.Reader, version int32) (Peer, error) {
 		return result, err
 	}
 
+	if addressSize < 0 || addressSize > maxPeerAddressSize {
+		return result, errors.Errorf("invalid peer address size : %d", addressSize)
+	}
 	addressData := make([]byte, addressSize)
-	_, err := input.Read(addressData) // Read until string terminator
-	if err != nil {
+	if _, err := io.ReadFull(input, addressData); err != nil {
 		return result, err
 	}
 	result.Address = string(addressData)
